@@ -8,6 +8,7 @@ CONSTANTS
   MaxAcc = 4
   MaxAfterEnd = 2
   EarlyDestroy = TRUE
+  PostIncMoves = TRUE
   Threaded = FALSE
-INVARIANTS TypeOK SameSequence SingleEOS ExceptionAtPosition ArgDelivered LocalsDestroyedOnce BlockedOnlyOnPending RecordClean TerminalOK
+INVARIANTS TypeOK SameSequence PayloadIntact SingleEOS ExceptionAtPosition ArgDelivered LocalsDestroyedOnce BlockedOnlyOnPending RecordClean TerminalOK
 CHECK_DEADLOCK FALSE
